@@ -874,6 +874,55 @@ def st_iter_any(ex, callee, args, st):
     return res
 
 
+def st_iter_find(ex, callee, args, st):
+    """`iter.find(f)` / `iter.find_map(f)`: f on each element in order; the first element accepted (resp. the first Some) is the result."""
+    it = ex.deref(args[0], st)
+    cm = re.search(r"(\{closure@[^}]+\})", callee)
+    if not isinstance(it, SeqIter) or not cm:
+        return _fallback(ex, callee, args, st, f"find over {it!r}")
+    f = _closure_fn(ex, cm.group(1))
+    is_map = "find_map" in callee
+    order = list(range(it.lo, it.hi))
+    if it.rev:
+        order.reverse()
+    res = []
+    work = [(0, st)]
+    while work:
+        j, s1 = work.pop()
+        if j >= len(order):
+            res.append(("return", Adt("Option", "None", []), None, s1))
+            continue
+        el = seq_elem(ex, it.seq, order[j])
+        # `find` passes `&&T` (a reference to the item, which is itself a reference); references to symbolic values are the values
+        for o in ex.run(f, [args[1], el], {}, 1, s1):
+            if o.kind != "return":
+                res.append((o.kind, o.value, o.info, o.state))
+                continue
+            v = ex.deref(o.value, o.state)
+            if is_map:
+                for is_some, payload, s2 in _opt_split(ex, v, o.state):
+                    if is_some:
+                        res.append(("return", Adt("Option", "Some", [payload]), None, s2))
+                    else:
+                        work.append((j + 1, s2))
+                continue
+            if not (isinstance(v, Scalar) and v.sort == "bool"):
+                raise Unsupported(f"find: closure returned {v!r}")
+            t = symex.simplify_bool(v.term)
+            if t != "false":
+                s_t = o.state.fork()
+                if t != "true" and t not in s_t.pc:
+                    s_t.pc.append(t)
+                res.append(("return", Adt("Option", "Some", [el]), None, s_t))
+            if t != "true":
+                s_f = o.state.fork()
+                nt = symex.simplify_bool(symex.neg(t))
+                if nt != "true" and nt not in s_f.pc:
+                    s_f.pc.append(nt)
+                work.append((j + 1, s_f))
+    return res
+
+
 def st_slice_last(ex, callee, args, st):
     seq = ex.deref(args[0], st)
     if not isinstance(seq, Sym) or not getattr(ex, "model_sequences", False):
@@ -940,6 +989,7 @@ STATE_INTRINSICS = {
     r"^<quote::__private::RepInterp<.*> as (quote::)?ToTokens>::to_tokens$": st_rep_to_tokens,
     r"^<(std::vec::)?Vec<.*> as (std::ops::)?DerefMut>::deref_mut$": st_vec_deref,
     r"^<(Rev<)?(std::slice::)?Iter<.*>>? as (std::iter::)?Iterator>::any::<.*>$": st_iter_any,
+    r"^<(Rev<)?(std::slice::)?Iter<.*>>? as (std::iter::)?Iterator>::(find|find_map)::<.*>$": st_iter_find,
     r"^core::slice::<impl \[.*\]>::(last|last_mut)$": st_slice_last,
     r"Option::<.*>::unwrap_or_else::<.*>$": st_opt_unwrap_or_else,
     r"Option::<.*>::(copied|cloned)$": st_clone,
